@@ -35,7 +35,7 @@ Fixpoint dec (o : map_order) (fuel : nat) (l : list Z) : option (value * list Z)
       | 2 :: b :: r => Some (VBool (negb (b =? 0)), r)
       | 3 :: w :: z :: r => Some (VInt (width_of w) z, r)
       | 4 :: bits :: r => Some (VFloat bits, r)
-      | 5 :: f :: n :: r => Some (VStr (negb (f =? 0)) (takeZ n r), skipZ n r)
+      | 5 :: f :: n :: r => Some (VStr (f =? 1) (takeZ n r), skipZ n r)   (* f = 0 / 2 / 3: the same string in another representation *)
       | 6 :: n :: r => Some (VBytes (takeZ n r), skipZ n r)
       | 7 :: n :: r => match many (Z.to_nat n) r with Some (vs, r') => Some (VSeq vs, r') | None => None end
       | 8 :: n :: r => match many (Z.to_nat n) r with Some (vs, r') => Some (VTuple vs, r') | None => None end
